@@ -1,4 +1,4 @@
-CONSTANTS Widths = {3, 8, 12}
+CONSTANTS Widths = {3, 10}
           Deep = FALSE
           Warm = 2
 INIT Init
